@@ -313,7 +313,10 @@ var lossyFuncs = map[string]bool{
 }
 
 // astReach: functions of module packages reachable from roots through static calls (AST level).
-func (c *Ctx) astReach(roots ...*FuncInfo) []*FuncInfo {
+func (c *Ctx) astReach(roots ...*FuncInfo) []*FuncInfo { return c.astReachCut(nil, roots...) }
+
+// astReachCut is astReach that does not descend into functions for which cut returns true.
+func (c *Ctx) astReachCut(cut func(*FuncInfo) bool, roots ...*FuncInfo) []*FuncInfo {
 	byObj := map[types.Object]*FuncInfo{}
 	for _, rel := range append(append([]string{}, libPkgs...), genPkgs...) {
 		for _, f := range c.AllFuncs(rel) {
@@ -327,6 +330,9 @@ func (c *Ctx) astReach(roots ...*FuncInfo) []*FuncInfo {
 	var visit func(f *FuncInfo)
 	visit = func(f *FuncInfo) {
 		if f == nil || seen[f] {
+			return
+		}
+		if cut != nil && cut(f) {
 			return
 		}
 		seen[f] = true
